@@ -49,7 +49,8 @@ def run(cx):
     cx.rule("C06.R3", "panic-site census of the request path (handle, the listen worker, the pool worker and everything they reach in the library, plus the generated dispatchers): every may-panic construct is a reviewed table entry")
     cx.rule("C06.R4", "nesting stays bounded: serde_json's recursion limit is never disabled (no disable_recursion_limit call, no unbounded_depth feature) and no thread is given a stack smaller than the default the limit was sized for (Builder::stack_size census)")
     cx.rule("C06.R5", "a truncated message cannot spin the worker: a loop around handle() re-enters it without reading fresh bytes only on the edge that says an upgrade just happened; otherwise every cycle handle() -> handle() passes a blocking read (whose EOF/empty result ends the loop)")
-    r1(cx); r2(cx); r3(cx); r4(cx); r4_stack(cx); r5(cx)
+    cx.rule("C06.R6", "undecodable request data ends the connection: on the request path of the library (handle() and everything it reaches) the Err of a serde_json decoder (from_slice/from_str/from_value) is never absorbed — once it has occurred, every return that can follow is Err (so the worker shuts the stream down) whatever the spelling (`?`, `.ok()?` in a helper, a match)")
+    r1(cx); r2(cx); r3(cx); r4(cx); r4_stack(cx); r5(cx); r6(cx)
 
 
 def r1(cx):
@@ -110,7 +111,7 @@ def r2(cx):
             cx.bad("C06.R2", "listen-worker:handle#%d:Err-edge" % i, t.sp, "result of handle() is not matched"); continue
         err = variant_edge(sw, 1)
         shut = {x.bb for x in body.calls("=shutdown")}
-        passes = cfg.must_pass(err[2], cfg.returns(), shut)
+        passes = cfg.must_pass_after(err, cfg.returns(), shut)
         again = t.bb in cfg.after(err)
         r = cfg.after(err)
         pan = [ps for ps in panic_sites(body) if ps["obj"].bb in r and ps["obj"].bb not in cfg.after(variant_edge(sw, 0)) and not (ps["mac"] and "print" in ps["mac"])]
@@ -233,3 +234,35 @@ def r5(cx):
                      "handle() can be re-entered without reading from the stream and without an upgrade having happened (e.g. blocks %s): for a message that ends at EOF without its NUL, handle() hands the same bytes back every time and the loop never ends (the connection is never closed, the worker never becomes idle)" % (spin[0][:20] if spin else "path limit"),
                      note_ok="every path back into handle() passes a read or the `upgrade just happened` test (%d read blocks, %d paths)" % (len(reads), len(paths)))
     cx.floor("C06.R5", "handle() call sites inside a loop", n, 3)
+
+
+def r6(cx):
+    from vlib import absval
+    root = cx.mir.one("varlink", hc.HANDLE)
+    def stop(b):
+        return "error.rs" in b.sp or bool(b.mac and "derive" in b.mac)
+    raw = reachable_bodies(cx.mir, [root], pkgs={"varlink"}, stop=stop, include_closures=False)
+    n = 0
+    seen = set()
+    for rb in sorted(raw, key=lambda b: b.path):
+        if rb.promoted is not None or rb.kind == "Closure": continue
+        if cx.mir.is_absorbed_helper(rb): continue          # decided where it is spliced in
+        body = cx.mir.view(rb)
+        if body.path in seen: continue
+        seen.add(body.path)
+        dec = [t for t in body.calls() if not t.callee.indirect and "serde_json" in t.callee.path and t.callee.name in ("from_slice", "from_str", "from_value", "from_reader")]
+        if not dec: continue
+        cx.saw(body)
+        cfg = Cfg(body); du = DefUse(body)
+        for i, t in enumerate(dec):
+            n += 1
+            key = "varlink:%s:%s#%d:error-propagates" % (body.path, t.callee.name, i)
+            site = "%s %s" % (t.sp, body.path)
+            if not body.ty(0).startswith("std::result::Result<"):
+                cx.bad("C06.R6", key, site, "a decoder error is turned into a %s by a public function: its callers cannot close the connection for it" % body.ty(0)); continue
+            rets, reached = absval.outcome_after(cfg, du, t, 1)
+            good = rets is not None and bool(rets) and all(v is not None and v[0] == "var" and v[1] == 1 for v in rets)
+            cx.check(good, "C06.R6", key, site,
+                     "after %s failed the function can still return something other than Err (%s): request data that does not decode is answered or ignored instead of ending the connection" % (t.callee.name, "the result of a reply call / Ok" if rets else "not evaluated"),
+                     note_ok="Err -> every return is Err")
+    cx.floor("C06.R6", "decoder calls on the request path", n, 2)
